@@ -146,7 +146,23 @@ def element_sig(obj):
             out[n] = [element_sig(x) for x in vals]
         else:
             out[n] = [qname(x) for x in v] if mf.many else qname(v)
+    for n in DERIVED_VIEWS.get(mc, []):
+        # what the element REPORTS (cached / derived reflective value), next to the stored bounds it is derived from
+        try:
+            out['~' + n] = bool(getattr(obj, n))
+        except Exception as e:
+            out['~' + n] = f'raises {type(e).__name__}'
     return out
+
+
+# derived reflective values compared on both sides in addition to the stored meta-features ('~' marks them; they are
+# not part of SIGNATURE_FEATURES, which lists what has to be WRITTEN): a typed element reports `many` from its upper
+# bound, whatever the order in which a loader set the bound and attached the element
+DERIVED_VIEWS = {'EAttribute': ['many'], 'EReference': ['many'], 'EOperation': ['many'], 'EParameter': ['many']}
+
+
+def sig_keys(mc):
+    return SIG_BY_CLASS.get(mc, []) + ['~' + n for n in DERIVED_VIEWS.get(mc, [])]
 
 
 def signature(epackage):
@@ -196,7 +212,7 @@ def sig_diff(a, b, acc=None, path=''):
     if mc != b.get('metaclass'):
         acc.append(('metaclass', (mc, 'metaclass'), path, mc, b.get('metaclass')))
         return acc
-    for n in SIG_BY_CLASS.get(mc, []):
+    for n in sig_keys(mc):
         va, vb = a.get(n), b.get(n)
         if va == vb:
             continue
@@ -2420,7 +2436,7 @@ def gen_ext_desc(rng, stats=None):
             params = []
             for k in range(rng.randint(0, 2)):
                 t = rng.choice([qenum, rng.choice(qclasses), 'ecore:EInt'])
-                params.append((f'x{k}', t, True, rng.choice([1, 1, -1])))
+                params.append((f'x{k}', t, True, rng.choice([1, 1, -1, 2, 5])))
                 if t.startswith('@0:'):
                     note('parameter types')
             ty = rng.choice([None, 'ecore:EInt', rng.choice(qclasses), qenum])
@@ -2430,7 +2446,7 @@ def gen_ext_desc(rng, stats=None):
             if rng.random() < 0.5:
                 exc.append(rng.choice([qdt, rng.choice(qclasses)]))
                 note('exceptions')
-            c['operations'].append(_op(f'op{uid[0]}', ty, params, exc))
+            c['operations'].append(_op(f'op{uid[0]}', ty, params, exc, upper=rng.choice([1, 1, -1, 2, 5])))
         d = psub if psub is not None and rng.random() < 0.4 else p
         d['classifiers'].append(c)
         local.append(('inner/' if d is psub else '') + c['name'])
